@@ -72,9 +72,12 @@ class Fixture:
         self.rng = rng
         self.k = 0
 
+    # characters that mean something to %-formatting, str.format and the shell, in file names (which the CLI echoes)
+    DECOR = ["", "", "", "{id}", "{}", "{body}", "50%", "a b", "\u00e9", "%s", "{0}", "'q'", "{error}", "{file_name}", "%(x)s", "{{", "$HOME"]
+
     def path(self, tag):
         self.k += 1
-        return os.path.join(self.dir, "%s_%d_%06d.json" % (tag, self.k, self.rng.randrange(10 ** 6)))
+        return os.path.join(self.dir, "%s_%d_%06d%s.json" % (tag, self.k, self.rng.randrange(10 ** 6), self.rng.choice(self.DECOR)))
 
     def write(self, tag, content):
         p = self.path(tag)
